@@ -207,4 +207,10 @@ def parseCookieEnviron (cookie : List Char) : Option (List (List Char × List Ch
   if cookie.isEmpty then some [] else
   (Py.latin1Enc cookie).map fun bs => parseCookie (Py.decodeReplace bs)
 
+/-- the `Cookie:` request header a client sends for a jar: pairs joined by `; ` -/
+def jarText : List (List Char × List Char) → List Char
+  | [] => []
+  | [(k, hv)] => k ++ '=' :: hv
+  | (k, hv) :: p :: t => k ++ '=' :: hv ++ ';' :: ' ' :: jarText (p :: t)
+
 end Wz.Cookie
